@@ -100,7 +100,8 @@ def main(prop, tier, seed):
             else:
                 rest.append(e)
         eps = keep + rest[:max(0, QUICK_BUDGET[prop] - len(keep))]
-    shards = runner.shard(eps, 16)
+    # thorough: many small traces (a trace of 150 000 lines takes more memory in TLC than sixteen validations side by side have)
+    shards = runner.shard(eps, 16 if tier == "quick" else 160)
     runs = runner.run_all(bdir, wd, shards, sessgen.render)
     for r in runs:
         if r["rc"] in (77, 78, -11, -6, 134, 139) or r["rc"] < 0:
@@ -110,7 +111,7 @@ def main(prop, tier, seed):
         elif r["rc"] != 0:
             print(r["stderr"][-2000:])
             raise SystemExit("INFRA: driver failed rc=%s on %s" % (r["rc"], r["script"]))
-    runner.validate_all(runs)
+    runner.validate_all(runs, nproc=16 if tier == "quick" else 8, timeout=1500 if tier == "quick" else 6000)
     known = runner.load_known(prop)
     nvalid = 0
     states = transitions = 0
